@@ -269,6 +269,7 @@ def check(payload):
         Q = shrink_program(P, still, budget=100)
         w, qtext = one(Q)
         v["shrunk"] = {"source": qtext, "detail": w["detail"] if w else None}
+        v["payload"] = dict(payload, program=Q.to_json())
         viols.append(v)
     return {"violations": viols, "digests": digs, "monitors": mons, "tally": tally,
             "sample": {"layout": text[:700]}}
